@@ -63,13 +63,13 @@ type SAuction struct {
 }
 
 type Snap struct {
-	Auctions   []SAuction
-	AuctionSeq uint64
+	Auctions    []SAuction
+	AuctionSeq  uint64
 	CreationFee string
 	BidFee      string
 	ExtPeriod   uint32
-	Bal        map[string]map[string]string
-	Orphans    []string // records whose auction does not exist
+	Bal         map[string]map[string]string
+	Orphans     []string // records whose auction does not exist
 }
 
 func coinsStr(cs []MCoin) string {
